@@ -1055,6 +1055,26 @@ def run_histories(ctx, flags):
                       "expected": "a run that reports success leaves headers that build on their own with the support header in the tree"})
 
 
+def ns_shadow_in_tu(types):
+    """Independent predicate on the DSDL types of a translation unit: some type refers to a composite whose first namespace
+    component is also the name of a namespace declared (by a type of the TU) directly inside one of the referring type's enclosing
+    namespaces — unqualified lookup of `first::...` then finds that inner namespace instead of the outer one."""
+    import pydsdl
+    declared = set()
+    for t in types:
+        comps = t.full_namespace.split(".") + ([t.short_name] if isinstance(t, pydsdl.ServiceType) else [])
+        for k in range(2, len(comps) + 1):
+            declared.add(tuple(comps[:k]))
+    for t in types:
+        ns = t.full_namespace.split(".") + ([t.short_name] if isinstance(t, pydsdl.ServiceType) else [])
+        for d in reach(t).values():
+            first = d.full_namespace.split(".")[0]
+            for p in declared:
+                if p[-1] == first and list(p[:-1]) == ns[:len(p) - 1]:
+                    return True
+    return False
+
+
 def regenerate_tables(ctx):
     """The generated tables Model/DepsOpts.lean reads (shared with C13 / C08 / C17): rewritten only when the tree changed."""
     import importlib.util
@@ -1450,6 +1470,12 @@ def run(ctx: common.Ctx):
                     cause = "c-constant-named-like-generated-macro"
                 elif c.target == "cpp" and any(cpp_name_clash(p) for p in parts_) and re.search(r"\berror\b", first):
                     cause = "cpp-attribute-named-like-generated-member"
+            if c.target == "cpp" and cause.startswith("cpp:") and re.search(
+                    r"no member named .* in namespace|in namespace .* does not name a type", first) and ns_shadow_in_tu(
+                        [type_of_header[h] for h in inc_set if h in type_of_header]):
+                # references are emitted as a::b::T without a leading `::`: a nested namespace named like the first component of a
+                # referenced name (declared in an enclosing namespace of the referring type) captures the lookup
+                cause = "cpp-nested-namespace-shadows-outer-namespace"
             if c.target == "cpp" and cause.startswith("cpp:"):
                 # a DSDL name that the C++ configuration leaves alone although it is a macro of an included C library header
                 if id(u) not in ident_cache:
@@ -1580,10 +1606,36 @@ def replay(ctx, path):
         print(json.dumps({"generation_error": err}))
         return 1
     if "compiler" in rp:
-        job, first, detail = run_compile((out, rp["header"], rp["compiler"], rp["xlang"]))
+        job, first, detail = run_compile((out, rp["header"], rp["compiler"], rp["xlang"], tuple(rp.get("args") or ())))
         print(json.dumps({"header": rp["header"], "compiler": rp["compiler"][:2], "first_diagnostic": first and first.replace(str(out) + "/", "")}))
+        rc = 1 if first else 0
+        if first and cfg.target == "cpp" and uni.read():
+            # the same routing as in run(): is the reproduced diagnostic the namespace-shadowing class, and is that a known finding?
+            lang = cfg.language()
+            toh = {lang_path(lang, t): t for ts in uni.types.values() for t in ts}
+            seen, todo = set(), [rp["header"]]
+            while todo:
+                h = todo.pop()
+                if h in seen or not (out / h).exists():
+                    continue
+                seen.add(h)
+                todo += [i[1:-1] for i in _INCLUDE.findall((out / h).read_text()) if i.startswith('"')]
+            cause = classify(cfg, rp["compiler"], first, False)
+            if re.search(r"no member named .* in namespace|in namespace .* does not name a type", first) and ns_shadow_in_tu(
+                    [toh[h] for h in sorted(seen) if h in toh]):
+                cause = "cpp-nested-namespace-shadows-outer-namespace"
+            print(json.dumps({"key": {"kind": "diagnostic", "cause": cause}}))
+            try:
+                known = json.loads((common.VERIF / "known_findings.json").read_text())
+                known = known.get("findings", known) if isinstance(known, dict) else known
+                for e in known:
+                    if e.get("property") == "C06" and e.get("match") == {"kind": "diagnostic", "cause": cause}:
+                        print(f"KNOWN-FINDING: property=C06 {e['id']}: {e['what']}")
+                        rc = 0
+            except (OSError, ValueError):
+                pass
         ctx.cleanup()
-        return 1 if first else 0
+        return rc
     if "module" in rp:
         res = python_import(out, ensure_numpy(ctx), only=[rp["module"]])
         print(json.dumps(res))
